@@ -289,3 +289,41 @@ Corollary determinism_partial_init p pick1 pick2 f1 f2 t1 :
   exists t2, exec_run f2 pick2 md D F (init_config p) = RQuiescent t2 /\ cfg_equiv t2 t1 /\ labels t2 ≡ₚ labels t1.
 Proof. intros HI. apply determinism_partial; [done|apply ns_ok_init]. Qed.
 End Determinism.
+
+(* ------------------------------------------------------------------ the full statements aimed at *)
+Require Import Grits.TcTop.
+
+(* C03, first sentence, for the two polarized modes: for every accepted program, if one run (one
+   scheduler oracle) runs to completion then every run does, and prints the same multiset. *)
+Definition determinism_statement : Prop :=
+  forall (p p' : program) (md : exec_mode), md = Async \/ md = Sync -> typecheck p = Accept p' ->
+  forall pick1 pick2 f1 f2 t1,
+    exec_run f1 pick1 md (p_types p') (p_funs p') (init_config p') = RQuiescent t1 -> (f1 <= f2)%nat ->
+    exists t2, exec_run f2 pick2 md (p_types p') (p_funs p') (init_config p') = RQuiescent t2 /\
+               labels t2 ≡ₚ labels t1.
+
+(* ... and across the two polarized modes *)
+Definition async_sync_agree_statement : Prop :=
+  forall (p p' : program), typecheck p = Accept p' ->
+  forall pick1 pick2 f1 t1,
+    exec_run f1 pick1 Sync (p_types p') (p_funs p') (init_config p') = RQuiescent t1 ->
+    exists f2 t2, exec_run f2 pick2 Async (p_types p') (p_funs p') (init_config p') = RQuiescent t2 /\
+                  labels t2 ≡ₚ labels t1.
+
+(* `determinism_partial` gives `determinism_statement` for every program for which an invariant
+   with the three properties exists: *)
+Theorem determinism_statement_from_invariant (p' : program) (md : exec_mode) (I : config -> Prop) :
+  (forall c ch c', I c -> step md (p_types p') (p_funs p') c ch = SStep c' -> I c') ->
+  (forall c a b c1 c2, I c -> a ≠ b -> step md (p_types p') (p_funs p') c a = SStep c1 ->
+     step md (p_types p') (p_funs p') c b = SStep c2 -> indep md (p_types p') c a b) ->
+  (forall c ch who e, I c -> step md (p_types p') (p_funs p') c ch ≠ SError who e) ->
+  I (init_config p') ->
+  forall pick1 pick2 f1 f2 t1,
+    exec_run f1 pick1 md (p_types p') (p_funs p') (init_config p') = RQuiescent t1 -> (f1 <= f2)%nat ->
+    exists t2, exec_run f2 pick2 md (p_types p') (p_funs p') (init_config p') = RQuiescent t2 /\
+               labels t2 ≡ₚ labels t1.
+Proof.
+  intros H1 H2 H3 HI pick1 pick2 f1 f2 t1 Hr Hf.
+  destruct (determinism_partial_init md _ _ I H1 H2 H3 p' pick1 pick2 f1 f2 t1 HI Hr Hf) as (t2 & Hr2 & _ & Hl).
+  eauto.
+Qed.
